@@ -70,6 +70,9 @@ def statesync(rnd, n_each):
             op = [{"op": "statesync"}, {"op": "block"}, {"op": "restart"}]
         elif r < 0.6:
             op = [{"op": "statesync"}, {"op": "block"}, {"op": "statesync"}]   # a restored node produces the next snapshot
+        if rnd.random() < 0.3:
+            # the snapshot of the block before the sync starts late (while the next block commits); the sync then uses it
+            op = [{"op": "block", "lateSnap": True}, {"op": "block"}, {"op": "statesync", "back": 1}]
         out.append(insert_at(rnd, s, op))
     return out
 
